@@ -175,3 +175,41 @@ def byte_poly(v):
 
 def bit(name, width, i):
     return Poly.atom(("bit", ("i", name, width, False), i))
+
+
+def eval_poly(p, env):
+    """value of polynomial p under env (atom -> int); comparison atoms are evaluated through
+    their inner polynomial. Returns None if an atom is not determined by env."""
+    from poly import atom_pred_poly
+    total = 0
+    for m, c in p.terms.items():
+        t = c
+        for a in m:
+            if a in env:
+                v = env[a]
+            elif a[0] in ("ge", "eq"):
+                iv = eval_poly(atom_pred_poly(a), env)
+                if iv is None:
+                    return None
+                v = 1 if ((iv >= 0) if a[0] == "ge" else (iv == 0)) else 0
+            elif a[0] == "bit" and a[1] in env:
+                v = (env[a[1]] >> a[2]) & 1
+            else:
+                return None
+            t *= v
+        total += t
+    return total
+
+
+def base_atoms(p):
+    """input atoms a polynomial depends on (looking through comparison atoms)"""
+    from poly import atom_pred_poly
+    out = set()
+    for a in p.atoms():
+        if a[0] in ("ge", "eq"):
+            out |= base_atoms(atom_pred_poly(a))
+        elif a[0] == "bit":
+            out.add(a[1])
+        else:
+            out.add(a)
+    return out
